@@ -192,6 +192,8 @@ pub struct Runner {
 
 impl Runner {
     pub fn new(parallelism: usize) -> Self {
+        #[cfg(feature = "verif")]
+        crate::verif::on_run_begin(parallelism);
         let (tx, rx) = mpsc::channel();
         Runner {
             tx,
@@ -211,6 +213,8 @@ impl Runner {
     }
 
     pub fn start(&mut self, id: BuildId, build: &Build) {
+        #[cfg(feature = "verif")]
+        crate::verif::on_start(id, build);
         let cmdline = build.cmdline.clone().unwrap();
         let depfile = build.depfile.clone().map(PathBuf::from);
         let rspfile = build.rspfile.clone();
@@ -253,6 +257,8 @@ impl Runner {
 
     /// Wait for a build to complete.  May block for a long time.
     pub fn wait(&mut self, mut output: impl FnMut(BuildId, Vec<u8>)) -> FinishedTask {
+        #[cfg(feature = "verif")]
+        crate::verif::on_wait(self.running);
         loop {
             match self.rx.recv().unwrap() {
                 Message::Output((bid, line)) => output(bid, line),
@@ -264,6 +270,16 @@ impl Runner {
             }
         }
     }
+}
+
+#[cfg(feature = "verif")]
+pub fn verif_extract_showincludes(output: Vec<u8>) -> (Vec<String>, Vec<u8>) {
+    extract_showincludes(output)
+}
+
+#[cfg(feature = "verif")]
+pub fn verif_read_depfile(path: &Path) -> anyhow::Result<Vec<String>> {
+    read_depfile(path)
 }
 
 #[cfg(test)]
